@@ -199,6 +199,26 @@ def impl_matrix(case):
         H = _guard(lambda: _import(fmt, enc, labels, cls, "float" if enc.dtype.kind == "f" else "int", by_class))
         res["rt"] = H if isinstance(H, str) else canon_impl(H, labels)
         res["rt_cls"] = None if isinstance(H, str) else type(H).__name__
+    if efmt == "clearn-arr" and len(labels) >= 2 and not isinstance(enc, str):
+        # the exporter's optional node_order: rows / columns and the returned node list follow the requested
+        # order, and reading that matrix back with that list gives the same graph
+        from pywhy_graphs import export as E
+        k_ = 1 + (len(case.get("M") or "") % (len(labels) - 1))
+        order = list(labels[k_:]) + list(labels[:k_])          # a rotation (not an involution for n >= 3)
+        if len(labels) >= 3:
+            order[0], order[1] = order[1], order[0]
+        r_ = _guard(lambda: E.graph_to_arr(G, format="causal-learn", node_order=list(order)))
+        if isinstance(r_, str):
+            res["order"] = "graph_to_arr(node_order=...) " + r_
+        else:
+            arr2, idx2 = r_
+            if list(idx2) != order:
+                res["order"] = "returned node list %r is not the requested order %r" % (list(idx2), order)
+            else:
+                H3 = _guard(lambda: E.clearn_to_graph(arr2, list(idx2), cls))
+                c3 = H3 if isinstance(H3, str) else canon_impl(H3, labels)
+                if c3 != res.get("rt"):
+                    res["order"] = "round trip with node_order gives %s, without %s" % (c3, res.get("rt"))
     if case.get("M") is not None:
         H2 = _guard(lambda: _import(fmt, mat_parse(case["M"]), labels, cls, dtype, by_class))
         res["dec"] = H2 if isinstance(H2, str) else canon_impl(H2, labels)
@@ -466,6 +486,8 @@ def judge(case, got, a2):
     wcls = {"admg": "ADMG", "cpdag": "CPDAG", "pag": "PAG"}[case["cls"]]
     if got.get("mutated"):
         viol.append(("mutation", "export changed the graph"))
+    if got.get("order"):
+        viol.append(("node_order", got["order"]))
     if case["fmt"] == "tetrad":
         k = 0
         if str(got.get("enc", "")).startswith("err:"):
